@@ -18,6 +18,7 @@ import Driver.C17
 import Driver.C19
 import Driver.C01
 import Driver.C04
+import Driver.C05
 /-!
 # Line-protocol driver
 
@@ -50,6 +51,7 @@ def dispatch (inp obs : List String) : Verdict :=
   | some "C19" => Driver.C19.run inp obs
   | some "C01" => Driver.C01.run inp obs
   | some "C04" => Driver.C04.run inp obs
+  | some "C05" => Driver.C05.run inp obs
   | _ => { agree := false, model := "unknown-model" }
 
 partial def loop (h : IO.FS.Stream) (out : IO.FS.Stream) : IO Unit := do
